@@ -76,6 +76,9 @@ def failure_scenarios():
     sc = []
     sc.append(('wrong psk', dict(conf_edit=lambda c: c['B']['B-A']['peer_auth'].__setitem__('psk', 'not-the-right-psk-1'))))
     sc.append(('wrong peer id', dict(conf_edit=lambda c: c['B']['B-A']['peer_auth'].__setitem__('id', 'mallory@example.org'))))
+    # identities are text that the PEER chooses: text that looks like a format template / a conversion must stay text when it is reported
+    sc.append(('hostile initiator identity', dict(conf_edit=lambda c: c['A']['A-B']['my_auth'].__setitem__('id', '{0.my_auth.psk}@{0.peer_auth.psk}'))))
+    sc.append(('hostile responder identity', dict(conf_edit=lambda c: c['B']['B-A']['my_auth'].__setitem__('id', '{0.peer_auth.psk}.%(psk)s.{self.configuration}.example'))))
     sc.append(('psk vs rsa', dict(opts_by_ep={'A': {'auth': 'rsa'}, 'B': {'auth': 'psk'}})))
     sc.append(('rsa', dict(opts={'auth': 'rsa'})))
     sc.append(('no ike proposal', dict(opts_by_ep={'A': {'ike_encr': ['aes128']}, 'B': {'ike_encr': ['aes256']}})))
